@@ -163,10 +163,42 @@ class Body:
             return [t["t"]] if t["t"] is not None else []
         return []
 
+    def _const_switch_target(self, blk):
+        """`_x = const; switchInt(move _x)` in one block (cfg!(debug_assertions), `if false`): the only
+        feasible successor, else None."""
+        t = blk["term"]
+        if t["k"] != "SwitchInt":
+            return None
+        d = t["discr"]
+        if d["k"] == "const":
+            v = d.get("v")
+        elif d["k"] in ("copy", "move") and not d["p"].get("p"):
+            l = d["p"]["l"]
+            v = None
+            for s in blk["stmts"]:
+                if s["k"] == "Assign" and s["lhs"]["l"] == l and not s["lhs"].get("p"):
+                    rv = s["rv"]
+                    if rv["k"] == "Use" and rv["ops"][0]["k"] == "const" and "v" in rv["ops"][0]:
+                        v = rv["ops"][0]["v"]
+                    else:
+                        v = None
+        else:
+            v = None
+        if v is None:
+            return None
+        for val, b in t["targets"]:
+            if val == v:
+                return b
+        return t["otherwise"]
+
     @property
     def succ(self):
         if self._succ is None:
-            self._succ = [self.succ_of_term(b["term"]) for b in self.blocks]
+            out = []
+            for b in self.blocks:
+                c = self._const_switch_target(b)
+                out.append([c] if c is not None else self.succ_of_term(b["term"]))
+            self._succ = out
         return self._succ
 
     @property
